@@ -15,7 +15,30 @@ import (
 
 var raceOffset int64
 
-var raceAccess = regexp.MustCompile(`(?m)^(?:Read|Write|Previous read|Previous write|Atomic read|Atomic write|Previous atomic read|Previous atomic write) at [^\n]*\n\s+(\S+)\(\)\n\s+(\S+):(\d+)`)
+var raceHead = regexp.MustCompile(`(?m)^(?:Read|Write|Previous read|Previous write|Atomic read|Atomic write|Previous atomic read|Previous atomic write) at [^\n]*\n((?:\s+\S+\(\)\n\s+\S+ \+0x[0-9a-f]+\n)+)`)
+var raceFrame = regexp.MustCompile(`(?m)^\s+(\S+)\(\)\n`)
+
+// firstOwnFrame: the first frame of an access that is not the Go runtime (map and slice
+// primitives report themselves as the top frame).
+func firstOwnFrame(frames string) string {
+	for _, m := range raceFrame.FindAllStringSubmatch(frames, -1) {
+		if !strings.HasPrefix(m[1], "runtime.") {
+			return m[1]
+		}
+	}
+	return ""
+}
+
+// harnessStack: the access was made by the scheduler goroutine (the harness reading or setting
+// up server state through the repository's own functions), not by a task.
+func harnessStack(frames string) bool {
+	for _, m := range []string{"hagallsim/hsim.(*runner)", "hagallsim/hsim.NewWorld", "hagallsim/hsim.RunScenario", "hagallsim/hsim.runCustom", "hagallsim/hsim.runC", "hagallsim/hsim.inBubble", "hagallsim/hsim.(*Client)"} {
+		if strings.Contains(frames, m) {
+			return true
+		}
+	}
+	return false
+}
 
 func raceLogPath() string {
 	for _, f := range strings.Fields(os.Getenv("GORACE")) {
@@ -54,12 +77,16 @@ func scanRaces() []Violation {
 		if !strings.Contains(b, "DATA RACE") {
 			continue
 		}
-		acc := raceAccess.FindAllStringSubmatch(b, -1)
-		if len(acc) < 2 || !isHagall(acc[0][1]) || !isHagall(acc[1][1]) {
+		acc := raceHead.FindAllStringSubmatch(b, -1)
+		if len(acc) < 2 {
+			continue
+		}
+		f0, f1 := firstOwnFrame(acc[0][1]), firstOwnFrame(acc[1][1])
+		if !isHagall(f0) || !isHagall(f1) || harnessStack(acc[0][1]) || harnessStack(acc[1][1]) {
 			continue
 		}
 		short := func(s string) string { return strings.TrimPrefix(s, "github.com/aukilabs/") }
-		a, c := short(acc[0][1]), short(acc[1][1])
+		a, c := short(f0), short(f1)
 		if a > c {
 			a, c = c, a
 		}
